@@ -107,7 +107,8 @@ func NewANSRangeEncoder(bs kanzi.OutputBitStream, args ...uint) (*ANSRangeEncode
 	this.freqs = make([]int, dim*257) // freqs[x][256] = total(freqs[x][0..255])
 	this.symbols = make([]encSymbol, dim*256)
 	this.buffer = make([]byte, 0)
-	this.logRange = max(logRange-order, 8)
+	// The header stores logRange-8 in 3 bits
+	this.logRange = min(max(logRange-order, 8), 15)
 	this.chunkSize = int(chkSize)
 	return this, nil
 }
@@ -162,7 +163,8 @@ func NewANSRangeEncoderWithCtx(bs kanzi.OutputBitStream, ctx *map[string]any, ar
 	this.freqs = make([]int, dim*257) // freqs[x][256] = total(freqs[x][0..255])
 	this.symbols = make([]encSymbol, dim*256)
 	this.buffer = make([]byte, 0)
-	this.logRange = max(logRange-order, 8)
+	// The header stores logRange-8 in 3 bits
+	this.logRange = min(max(logRange-order, 8), 15)
 	this.chunkSize = int(chkSize)
 	return this, nil
 }
